@@ -315,9 +315,15 @@ fresh_rule_state = uf("fresh_rule_state", [], RStateT)            # the rule obj
 parser_for = uf("ignore_parser_for", [PathT], ParserT)            # get_ignore_parser(root) in this process
 cwd = uf("cwd", [], PathT)
 
+from contracts.c05_parse import LoaderT  # noqa: E402
+
+OrchInitT = OrchT.extend(config_loader=LoaderT)  # the orchestrator as the CLI layer sees it (+ its config loader)
+
+
 @contract(O + "Orchestrator.__init__", props=["C07", "C06", "C10"],
-          types=dict(self=OrchT, project_root=Opt(PathT), config=Opt(Dict)), raises=["Exception"],
-          modifies=["self.project_root", "self.registry", "self.ignore_parser", "self.config", "self._rules_discovered"],
+          types=dict(self=OrchInitT, project_root=Opt(PathT), config=Opt(Dict)), raises=["Exception"],
+          modifies=["self.project_root", "self.registry", "self.ignore_parser", "self.config", "self._rules_discovered",
+                    "self.config_loader"],
           assumed="object wiring (new RuleRegistry, LinterConfigLoader, process-wide cached ignore parser) and, when no "
                   "config dict is passed, configuration discovery from the project root (may fail: any Exception)")
 class OrchestratorInit:
